@@ -345,7 +345,7 @@ func c12Zoo(c *run.C) {
 	r := c.R
 	all := append(append([]reflect.Type{}, zoo.Supported...), zoo.FoldOnly...)
 	t := all[c.Idx%len(all)]
-	ifaceTypes := []reflect.Type{reflect.TypeOf(zoo.FoldVal{}), reflect.TypeOf(&zoo.FoldPtr{}), reflect.TypeOf(zoo.Plain{}), reflect.TypeOf(map[string]int{}), reflect.TypeOf(0)}
+	ifaceTypes := append([]reflect.Type{reflect.TypeOf(zoo.Plain{}), reflect.TypeOf(map[string]int{}), reflect.TypeOf(0), reflect.TypeOf([]interface{}{}), reflect.TypeOf(map[string]interface{}{})}, zoo.FolderValues...)
 	if t == reflect.TypeOf(zoo.InlineIface{}) {
 		ifaceTypes = []reflect.Type{reflect.TypeOf(zoo.Plain{}), reflect.TypeOf(map[string]int{}), reflect.TypeOf(map[string]interface{}{}), reflect.TypeOf(zoo.FoldVal{})}
 	}
